@@ -101,6 +101,11 @@ package trend
 //@ ensures[C05] "range" forall kk :: 0 <= kk && kk < len(result) ==> 0 - 1 <= result[kk] && result[kk] <= 1
 //@ ensures[C03] consumed(c) == len(c) && closed(result)
 //@ ensures[C04] forall kk :: 0 <= kk && kk < len(result) ==> hor(result, kk) <= hor(c, kk)
+//@ rel[C18] "price" param lam real
+//@ rel[C18] "price" assume lam > 0 && len(second(c)) == len(c) && (forall k :: 0 <= k && k < len(c) ==> pscaled(second(c)[k], c[k], lam))
+//@ rel[C18] "price" step forall i :: 0 <= i && i < len(c) ==> second(highs)[i] == lam * highs[i] && second(lows)[i] == lam * lows[i] && second(closings)[i] == lam * closings[i]
+//@ rel[C18] "price" use[cond] cciS_pscale(highs, lows, closings, second(highs), second(lows), second(closings), lam, t.Cci.Period, len(c), _)
+//@ rel[C18] "price" ensures len(second(result)) == len(result) && (forall k :: 0 <= k && k < len(result) && (k >= 2 * t.Cci.Period - 2 ==> smaS(cciDevS(highs, lows, closings, t.Cci.Period), t.Cci.Period)[k - (2 * t.Cci.Period - 2)] != 0) ==> second(result)[k] == result[k])
 
 //@ func DemaStrategy.Compute
 //@ requires d.Dema1.Ema1.Period >= 1 && d.Dema1.Ema2.Period >= 1 && d.Dema2.Ema1.Period >= 1 && d.Dema2.Ema2.Period >= 1 && d.Dema1.IdlePeriod() <= d.Dema2.IdlePeriod() && consumed(c) == 0
@@ -167,6 +172,16 @@ package trend
 //@ ensures[C05] "range" forall kk :: 0 <= kk && kk < len(result) ==> 0 - 1 <= result[kk] && result[kk] <= 1
 //@ ensures[C03] consumed(snapshots) == len(snapshots) && closed(result)
 //@ ensures[C04] forall kk :: 0 <= kk && kk < len(result) ==> hor(result, kk) <= hor(snapshots, kk)
+//@ rel[C18] "price" param lam real
+//@ rel[C18] "price" assume lam > 0 && len(second(snapshots)) == len(snapshots) && (forall k :: 0 <= k && k < len(snapshots) ==> pscaled(second(snapshots)[k], snapshots[k], lam))
+//@ rel[C18] "price" assume forall j :: 0 <= j && j + k.Kama.ErPeriod < len(snapshots) ==> winS(absChS(closingsSplice[0]), k.Kama.ErPeriod)[j] != 0
+//@ rel[C18] "price" step forall i :: 0 <= i && i < len(snapshots) ==> second(closingsSplice[0])[i] == lam * closingsSplice[0][i]
+//@ rel[C18] "price" use[cond] kamaScS_pscale(closingsSplice[0], second(closingsSplice[0]), lam, k.Kama.ErPeriod, k.Kama.FastScPeriod, k.Kama.SlowScPeriod, len(snapshots), _)
+//@ rel[C18] "price" step forall j :: 0 <= j && j + k.Kama.ErPeriod < len(snapshots) ==> kamaScS(second(closingsSplice[0]), k.Kama.ErPeriod, k.Kama.FastScPeriod, k.Kama.SlowScPeriod)[j] == kamaScS(closingsSplice[0], k.Kama.ErPeriod, k.Kama.FastScPeriod, k.Kama.SlowScPeriod)[j]
+//@ rel[C18] "price" use[cond] kamaR_scale(closingsSplice[0], second(closingsSplice[0]), kamaScS(closingsSplice[0], k.Kama.ErPeriod, k.Kama.FastScPeriod, k.Kama.SlowScPeriod), kamaScS(second(closingsSplice[0]), k.Kama.ErPeriod, k.Kama.FastScPeriod, k.Kama.SlowScPeriod), lam, k.Kama.ErPeriod, _)
+//@ rel[C18] "price" step forall i :: 0 <= i && i < len(kamas) ==> second(kamas)[i] == lam * kamas[i]
+//@ rel[C18] "price" use forall i :: mul_cmp(lam, closingsSplice[1][i], kamas[i])
+//@ rel[C18] "price" ensures len(second(result)) == len(result) && (forall k :: 0 <= k && k < len(result) ==> second(result)[k] == result[k])
 
 //@ func KdjStrategy.Compute
 //@ requires kdj.Kdj.MovingMax.Period >= 1 && kdj.Kdj.MovingMin.Period == kdj.Kdj.MovingMax.Period && kdj.Kdj.Sma1.Period >= 1 && kdj.Kdj.Sma2.Period >= 1 && consumed(c) == 0
